@@ -107,6 +107,18 @@ for case in job['twins']:
             r[mode] = e.to_string()
         except Exception as ex:
             r[mode] = 'EXC:' + type(ex).__name__
+    if len(set(case['word'])) == len(case['word']):
+        # the same word supplied through the xml_* shortcut to an unchecked element, and an absent possible child read back
+        try:
+            e = R.PARENTS[case['type']](xsd_check=False)
+            for n in case['word']:
+                c = R.make(n); c.xsd_check = False
+                setattr(e, 'xml_' + n.replace('-', '_'), c)
+            r['unchecked_shortcut'] = e.to_string()
+            absent = [n for n in sorted(e.possible_children_names or []) if n not in case['word']][:3]
+            r['absent_reads'] = [repr(getattr(e, 'xml_' + n.replace('-', '_'))) for n in absent]
+        except Exception as ex:
+            r['unchecked_shortcut'] = 'EXC:' + type(ex).__name__
     out['twins'].append(r)
 
 
